@@ -178,7 +178,8 @@ def oracle(exe, cfg):
         if que is not None and (que[0] != 0 or que[1] > cfg['workers'] * cfg.get('calls', 1)):
             bad.append((f'C03|queue-not-empty|{_shape(cfg)}', f"queue (items, unfinished) = {que} at return"))
     for thr in exe.rt.threads:
-        if thr.crashed is not None and thr is not exe.rt.main:
+        if thr.crashed is not None and thr is not exe.rt.main and kind != 'quiescent':
+            # a worker killed by an exception is reported together with the hang it causes; alone it is not a violation of C03
             bad.append((f'C03|worker-died|{type(thr.crashed).__name__}', f'worker {thr.name} died: {thr.crashed!r}'))
         if thr.crashed is not None and thr is exe.rt.main:
             bad.append((f'HARNESS|main-died|{type(thr.crashed).__name__}', f'main died: {thr.crashed!r}'))
